@@ -16,6 +16,10 @@ def _worker_main(conn, modname, init_args):
     signal.signal(signal.SIGINT, signal.SIG_IGN)
     try:
         mod = importlib.import_module(modname)
+        if getattr(mod, "VARIANT", None):
+            from mc.boot import use_variant
+
+            use_variant(mod.VARIANT)
         if hasattr(mod, "worker_init"):
             mod.worker_init(*init_args)
     except BaseException:
